@@ -365,6 +365,10 @@ impl Property for C18 {
                 let a = format!("{name}=1");
                 let b = format!("{name}=2");
                 case.opts.push(vec!["--set".into(), a.clone()]);
+                if rng.chance(1, 2) {
+                    // another definition of the same kind in between
+                    case.opts.push(vec!["--set".into(), format!("between{}=5", rng.below(10))]);
+                }
                 case.opts.push(vec!["--set".into(), b.clone()]);
                 needs.push(a);
                 needs.push(b);
